@@ -200,6 +200,9 @@ def exec_fake(sc):
         raw = raw[:sc['trunc']]
     lines = raw.decode('utf8', 'replace').splitlines()
     accept, dontcare = model_fake(lines, sc.get('rc', 0))
+    if raw and not raw.endswith(b'\n') and lines and lines[-1].startswith('[GNUPG:] VALIDSIG') and accept:
+        # output cut in the middle of the VALIDSIG line, after its 10th argument began: either verdict
+        dontcare = 'validsig-cut-mid-line'
     if sc.get('missing'):
         accept, dontcare = False, None
     peer = GS.FakePeer(script)
